@@ -439,6 +439,10 @@ class State(MutableMapping):
             self._last_fork = self.auto_fork_type.to_cache(
                 {child: self._values[child] for child in (name,) + sorted_children}
             )
+        else:
+            # a forked state is only held until the next assignment: an older snapshot would
+            # not be consistent anymore with the values assigned since (cf. `_last_fork`)
+            self._last_fork = None
         # TODO? we do not "validate" / "check" input data for now
         #  (it could be a stateless variable method) to remain light
         self._values[name] = value
